@@ -346,6 +346,68 @@ func run(r *mon.Run) {
 		}
 	}
 
+	// ---- many certificates in one process: N publishers, each with its own key and certificate chain, one exchange each;
+	// every exchange is verified when it is made and again - the object in memory and the file read back - after all the
+	// others have been made and verified (a verifier that remembers what it has seen must not confuse them)
+	if r.Shard == 1%r.NShards {
+		nIds := 40
+		if r.Thorough {
+			nIds = 300
+		}
+		type pub struct {
+			id   *gen.Identity
+			e    *signedexchange.Exchange
+			file []byte
+			t    time.Time
+			ver  version.Version
+		}
+		var pubs []*pub
+		mg := r.Rand("many-identities", 0)
+		for k := 0; k < nIds; k++ {
+			ver := gen.SXGVersions[k%len(gen.SXGVersions)]
+			id := gen.NewIdentity(mg, gen.Curves[k%2], "example.com", 1+k%2)
+			spec := gen.DefaultSXG(mg, ver, id, "example.com", 10+k, 16)
+			e, _, err := spec.Build()
+			if err != nil {
+				r.HarnessFail("many-identities: cannot build exchange %d: %v", k, err)
+				continue
+			}
+			var buf bytes.Buffer
+			if err := e.Write(&buf); err != nil {
+				r.HarnessFail("many-identities: cannot write exchange %d: %v", k, err)
+				continue
+			}
+			p := &pub{id: id, e: e, file: buf.Bytes(), t: spec.Date.Add(spec.Expires.Sub(spec.Date) / 2), ver: ver}
+			pubs = append(pubs, p)
+			if v, _ := verify(r, fmt.Sprintf("many-ids/first/%d", k), e, p.t, id); !v.ok {
+				r.Eval("many-identities:FRESH-DOES-NOT-VERIFY")
+				r.Violation(fmt.Sprintf("sx2:many-ids:first:%d", k), fmt.Sprintf("exchange %d (%s) of %d publishers with their own certificates does not verify right after signing: %s", k, ver, nIds, v.log), nil)
+			}
+		}
+		for pass, order := range [][]int{mg.Perm(len(pubs)), mg.Perm(len(pubs))} {
+			for _, k := range order {
+				p := pubs[k]
+				target, how := p.e, "in memory"
+				if pass == 1 {
+					back, err := signedexchange.ReadExchange(bytes.NewReader(p.file))
+					if err != nil {
+						r.Violation(fmt.Sprintf("sx2:many-ids:read:%d", k), fmt.Sprintf("exchange %d of %d publishers cannot be read back: %v", k, nIds, err), nil)
+						continue
+					}
+					target, how = back, "after Write and ReadExchange"
+				}
+				v, _ := verify(r, fmt.Sprintf("many-ids/again/%d/%d", pass, k), target, p.t, p.id)
+				if !v.ok {
+					r.Eval("many-identities:VERDICT-CHANGED")
+					r.Violation(fmt.Sprintf("sx2:many-ids:again:%d:%d", pass, k), fmt.Sprintf("exchange %d (%s, one of %d publishers with their own certificates in this process) verified when it was made and does not verify %s once the others have been verified: %s", k, p.ver, nIds, how, v.log), nil)
+				} else {
+					r.Eval("many-identities:verdict-stable")
+				}
+			}
+		}
+		r.Distinct(fmt.Sprintf("many-identities|%d", len(pubs)))
+	}
+
 	// ---- header sets the library may refuse (valid field names that are equal after case folding): IF it agrees to sign
 	// and write them, every value must be there after the round trip. (Names that are not HTTP tokens - ":url", the empty
 	// name - are outside the property's header sets and are not tried.)
